@@ -4,12 +4,13 @@ import hashlib, json, collections
 from vlib.common import Hex
 
 ASPECT_THEOREMS = {
-    "C01": ["pe_law_extract", "pe_law_extract_aligned", "pe_law_hashin", "pe_sign_then_verify", "pe_refuses_clean",
-            "pe_accepts_wf", "pe_embed_defined"],
-    "C08": ["pe_law_hashin", "pe_resign_history", "pe_is_signed_spec", "pe_refuses_trailing_garbage"],
-    "C03": ["pe_law_payload", "pe_only_these_ranges_differ"],
-    "C02": ["pe_protect", "pe_protect_bytes"],
-    "C05": ["pe_hashin_eq_spec", "pe_embedded_digest_is_spec_digest_of_output", "pe_hashin_is_linear", "pe_checksum_eq_spec"],
+    "C01": ["pe_law_extract", "pe_law_extract_aligned", "pe_law_hashin", "pe_format_laws", "pe_sign_then_verify", "pe_refuses_clean",
+            "pe_accepts_wf", "pe_accepts_all_contiguous_refuted", "pe_embed_defined"],
+    "C08": ["pe_law_hashin", "pe_format_laws", "pe_resign_history", "pe_is_signed_spec", "pe_refuses_trailing_garbage"],
+    "C03": ["pe_law_payload", "pe_format_laws", "pe_only_these_ranges_differ"],
+    "C02": ["pe_protect", "pe_protect_bytes", "pe_protect_exact_refuted", "pe_tamper_rejected"],
+    "C05": ["pe_hashin_eq_spec", "pe_embedded_digest_is_spec_digest_of_output", "pe_hashin_is_linear", "pe_checksum_eq_spec",
+            "pe_embed_checksum_is_spec", "pe_checksum_odd_lfanew_refuted"],
 }
 ASPECTS = ("C01", "C02", "C03", "C05", "C08")
 
@@ -27,7 +28,7 @@ def body(ctx):
     """assumes ctx.unit == 'fmtpe'.  Returns {unit,status,evaluations,distinct,samples,notes}."""
     pid = ctx.pid
     rel = (lambda a: pid.startswith("FMT") or pid == a)
-    st = ctx.prepare(["FmtPE_gen"], ["FmtPE"], "FmtPE.Run")
+    st = ctx.prepare(["FmtPE_gen", "C12_gen"], ["FmtPE"], "FmtPE.Run")   # C12_gen: the patch is applied with the C12 model of lib/binpatch
     res = {"unit": "fmtpe", "status": st, "evaluations": 0, "distinct": 0, "samples": [], "notes": [], "kinds": {}}
     if not st["harness_ok"]:
         return res
